@@ -193,7 +193,7 @@ func fsSweeps(r *h.Run) {
 				// every k in the thorough tier for the first big tree; a seeded selection otherwise
 				full, err := runFS(&j.ep, j.spec, "cancel-at", -1, false, "")
 				if err == nil && !(r.Thorough() && !r.Deep && j.i == 2 && full.Total < 3000) {
-					budget := r.N(40, 600)
+					budget := r.N(30, 600)
 					if r.Deep {
 						budget = 120
 					}
@@ -227,12 +227,12 @@ func fsSweeps(r *h.Run) {
 			t := coqTree(j.spec)
 			empty := "false None [] [] [] KNil 0 [] [] KCancelled"
 			r.Case(fmt.Sprintf("(mkCase (OpEpTotal %s %s %d) %s)", e, t, st.Total, empty), map[string]any{"entry_point": st.EP, "tree": j.spec, "total_ops": st.Total})
-			budget := 70 // correspondence cases per entry point and tree (every k is still run and judged by the oracle)
+			budget := 50 // correspondence cases per entry point and tree (every k is still run and judged by the oracle)
 			if j.i >= 2 {
-				budget = 40
+				budget = 30
 			}
 			if !fullCases[st.EP] {
-				budget = 15
+				budget = 12
 			}
 			step := len(st.Ks)/budget + 1
 			if step > 1 && step%2 == 0 {
